@@ -8,6 +8,8 @@ import NsyncVerif.Model.Deadline
 import NsyncVerif.Model.VCDriver
 import NsyncVerif.Model.MuQDriver
 import NsyncVerif.Model.CounterDriver
+import NsyncVerif.Model.CvDriver
+import NsyncVerif.Model.NoteDriver
 /-
   `replay <layer>…` : reads a harness log (or a differential case file) on stdin and feeds every line
   to the selected layers.  A layer answers `ok`, `skip`, `#` or a complaint (`REJECT …`, `MISMATCH …`,
@@ -28,6 +30,8 @@ structure Layers where
   vc : VC.Driver.DState := VC.Driver.init
   muq : MuQ.Driver.DState := MuQ.Driver.init
   counter : Counter.Driver.DState := Counter.Driver.init
+  cv : Cv.Driver.DState := Cv.Driver.init
+  note : Note.Driver.DState := Note.Driver.init
 
 /-- Nested API boundaries are logged as `ncall`/`nret` with structured names (`oncesync5.mu`,
     `ctr0.mu`, …); the layers that treat an inner mutex/cv as a black box were written against
@@ -69,6 +73,8 @@ def Layers.feed (l : Layers) (name line : String) : Layers × String :=
     if isConventionKind line || (line.splitOn " ").getD 1 "" == "malloc" || (line.splitOn " ").getD 1 "" == "free" then
       let (d, o) := Counter.Driver.step l.counter (adaptCounter (adaptNested line)); ({ l with counter := d }, o)
     else (l, "skip")
+  | "cv" => let (d, o) := Cv.Driver.step l.cv line; ({ l with cv := d }, o)
+  | "note" => let (d, o) := Note.Driver.step l.note line; ({ l with note := d }, o)
   | "vc" => let (d, o) := VC.Driver.step l.vc line; ({ l with vc := d }, o)
   | "deadline" => let (d, o) := Deadline.Driver.step l.deadline line; ({ l with deadline := d }, o)
   | "dll" => let (d, o) := Dll.Driver.step l.dll line; ({ l with dll := d }, o)
@@ -87,12 +93,41 @@ structure St where
   skipped : Nat := 0
   rejects : Nat := 0
   cov : List (String × Nat) := []
+  cvF3 : Bool := false
+  foreign : List (String × Nat × Nat) := []   -- (layer, tid) ↦ depth of nested calls on objects that are not the layer's
+
+/-- the Cv acceptor's ghost flag for defect F3: an nsync_wait_n record that a waker had already unlinked was
+    "removed" again by its owner's cv_dequeue, i.e. the wake-up was consumed but reported as not-ready -/
+def cvHasF3 (d : Cv.Driver.DState) : Bool := d.alts.all (fun al => al.cvs.any (fun p => p.2.f3)) && !d.alts.isEmpty
 
 def mergeCov (a b : List (String × Nat)) : List (String × Nat) :=
   b.foldl (fun acc (k, n) =>
     match acc.find? (fun p => p.1 == k) with
     | some p => (k, p.2 + n) :: acc.filter (fun q => q.1 != k)
     | none => (k, n) :: acc) a
+
+/-- Nested calls (`ncall`/`nret`) on objects that do not belong to a layer (e.g. a counter's mutex seen by the
+    Note layer) are hidden from that layer together with their matching `nret`. `own` tells whether an object
+    name belongs to the layer. Returns the new depth table and whether the line must be hidden. -/
+def hideForeign (tbl : List (String × Nat × Nat)) (layer : String) (own : String → Bool) (line : String) :
+    List (String × Nat × Nat) × Bool :=
+  match line.splitOn " " with
+  | t :: kind :: rest =>
+    match t.toNat? with
+    | none => (tbl, false)
+    | some tid =>
+      let depth := match tbl.find? (fun e => e.1 == layer && e.2.1 == tid) with | some e => e.2.2 | none => 0
+      let set (d : Nat) := (layer, tid, d) :: tbl.filter (fun e => !(e.1 == layer && e.2.1 == tid))
+      if kind == "ncall" then
+        let obj := rest.getD 1 ""
+        let api := rest.getD 0 ""
+        if depth > 0 then (set (depth + 1), true)
+        else if own obj || api == "nsync_wait_n" || api == "nsync_note_notify" then (tbl, false)
+        else (set 1, true)
+      else if kind == "nret" then
+        if depth > 0 then (set (depth - 1), true) else (tbl, false)
+      else (tbl, false)
+  | _ => (tbl, false)
 
 partial def loop (h : IO.FS.Stream) (names : List String) (st : St) : IO St := do
   let line ← h.getLine
@@ -102,20 +137,28 @@ partial def loop (h : IO.FS.Stream) (names : List String) (st : St) : IO St := d
   let st := { st with lineNo := st.lineNo + 1 }
   if line.startsWith "# begin" then
     let cov := mergeCov st.cov st.layers.mux.cov
-    loop h names { st with layers := {}, dead := [], execNo := st.execNo + 1, cov := cov }
+    loop h names { st with layers := {}, dead := [], execNo := st.execNo + 1, cov := cov, cvF3 := false, foreign := [] }
   else if line.startsWith "# outcome" || line.startsWith "# sched" || line.startsWith "# endexec" then
     loop h names st
   else
     let mut st := st
     for name in names do
       if !st.dead.contains name then
-        let (l, out) := st.layers.feed name line
+        let (ftbl, hide) :=
+          if name == "note" then hideForeign st.foreign name (fun o => o.startsWith "note") line
+          else if name == "counter" then hideForeign st.foreign name (fun o => o.startsWith "ctr") line
+          else (st.foreign, false)
+        st := { st with foreign := ftbl }
+        let (l, out) := if hide then (st.layers, "skip") else st.layers.feed name line
         if out == "ok" then st := { st with layers := l, accepted := st.accepted + 1 }
         else if out == "skip" || out == "#" then st := { st with layers := l, skipped := st.skipped + 1 }
         else
           IO.println s!"REJECT exec={st.execNo} line={st.lineNo} layer={name} {out} | {line}"
           st := { st with dead := name :: st.dead, rejects := st.rejects + 1 }
           if st.execNo == 0 then st := { st with dead := [] }   -- differential files: keep going
+    if names.contains "cv" && !st.cvF3 && cvHasF3 st.layers.cv then
+      IO.println s!"ORACLE exec={st.execNo} line={st.lineNo} layer=cv swallowed-wakeup: an nsync_wait_n record already unlinked by a waker was removed again by its owner's cv_dequeue (the consumed wake-up is reported as not ready) | {line}"
+      st := { st with cvF3 := true }
     loop h names st
 
 def main (args : List String) : IO UInt32 := do
